@@ -46,3 +46,4 @@ def run(chk):
     chk.require('path_with_at_or_colon', 500)
     chk.require('query_with_at_colon_slash', 500)
     chk.min_cases = per * vf.NCPU * 2
+    chk.coverage(build('cov'), 300)       # thorough tier: gcov line coverage of the anchored sources under this workload
